@@ -92,3 +92,47 @@ def module_program(rng):
     M.append("print([name, counter, main_only]);")
     M = [l for l in M if l]
     return "\n".join(M) + "\n", mods
+
+
+def module_history(rng):
+    """several runs on one interpreter: imports that die uncaught half-way (a module that throws at top level, a cycle, a
+    module that does not compile), an import suspended inside a fiber that a later run resumes, and re-imports of all of
+    these by later runs, at top level, in functions and in try blocks. Every module body announces itself, so 'at most
+    once per interpreter' is observable over the whole history."""
+    r = rng
+    mods = [("ok1", "print(\"body of ok1\");\nvar counter = 0;\nfn who() { return \"ok1\"; }\nfn bump() { counter = counter + 1; return counter; }\n"),
+            ("ok2", "print(\"body of ok2\");\nimport \"ok1\";\nvar counter = 50;\nfn who() { return \"ok2\"; }\nfn bump() { counter = counter + 1; return [counter, ok1.bump()]; }\n"),
+            ("thr", "print(\"body of thr\");\nvar counter = 0;\nfn who() { return \"thr\"; }\nfn bump() { counter = counter + 1; return counter; }\nimport \"ok1\";\nprint(nil + 1);\nprint(\"end of thr\");\n"),
+            ("cya", "print(\"body of cya\");\nfn who() { return \"cya\"; }\nfn bump() { return 1; }\nimport \"cyb\";\nprint(\"end of cya\");\n"),
+            ("cyb", "print(\"body of cyb\");\nfn who() { return \"cyb\"; }\nfn bump() { return 2; }\nimport \"cya\";\nprint(\"end of cyb\");\n"),
+            ("sus", "print(\"body of sus\");\nvar stage = 1;\nfn who() { return \"sus\"; }\nfn bump() { stage = stage + 1; return stage; }\n"
+                    "try { Fiber.yield(\"sus yielded\"); } catch e { print(\"sus: not inside a fiber\"); }\nstage = 10;\nprint(\"end of sus\");\n"),
+            ("brk", "print(\"body of brk\");\nvar x = ;\n")]
+    names = ["ok1", "ok2", "thr", "cya", "cyb", "sus", "brk", "gone"]
+    steps = []
+    fibers = []
+    for i in range(r.range(3, 8)):
+        nm = r.weighted([("ok1", 2), ("ok2", 2), ("thr", 4), ("cya", 4), ("cyb", 2), ("sus", 5), ("brk", 1), ("gone", 1)])
+        c = r.below(100)
+        use = "print([a%d.who(), a%d.bump()]);" % (i, i)
+        if fibers and r.chance(40):
+            fb, fnm = fibers.pop(r.below(len(fibers)))
+            steps.append(("snip", "var r%d = nil;\ntry { r%d = %s.call(); print(type(r%d)); } catch e { print(type(e)); print(e.context); }\n"
+                                  "try { import \"%s\" as b%d; print(b%d == r%d); print(b%d.who()); } catch e { print(type(e)); print(e.context); }\n"
+                          % (i, i, fb, i, fnm, i, i, i, i)))
+        elif c < 30:
+            steps.append(("snip", "print(\"run %d\");\nimport \"%s\" as a%d;\n%s\n" % (i, nm, i, use)))
+        elif c < 55:
+            steps.append(("snip", "try { import \"%s\" as a%d; %s } catch e { print(type(e)); print(e.context); }\nprint(\"run %d done\");\n" % (nm, i, use, i)))
+        elif c < 70:
+            steps.append(("snip", "fn load%d() { import \"%s\" as a%d; %s return a%d; }\nvar g%d = load%d();\nprint(g%d == load%d());\n" % (i, nm, i, use, i, i, i, i, i)))
+        elif c < 92:
+            steps.append(("snip", "var fb%d = Fiber.new(|| { import \"%s\" as a%d; %s return a%d; });\n"
+                                  "try { print(type(fb%d.call())); } catch e { print(type(e)); print(e.context); }\nprint(fb%d.has_finished());\n" % (i, nm, i, use, i, i, i)))
+            fibers.append(("fb%d" % i, nm))
+        else:
+            steps.append(("snip", r.choice(["print(nil + 1);\n", "throw \"stop\";\n", "var = 3;\n", "fn deep(n) { if n == 0 { throw \"deep\"; } return deep(n - 1); }\ndeep(5);\n"])))
+    last = ["try { import \"%s\" as z%d; print([z%d.who(), z%d.bump()]); } catch e { print(type(e)); print(e.context); }" % (nm, k, k, k)
+            for k, nm in enumerate(r.sample(names, 4))]
+    steps.append(("snip", "\n".join(last) + "\n"))
+    return steps, mods
